@@ -132,8 +132,10 @@ def fasta_append_rules(ctx, R="R1"):
                 if isinstance(nxt, ast.AugAssign) and isinstance(nxt.op, ast.Add) and same_expr(nxt.target, "self.lines") and isinstance(nxt.value, ast.Name):
                     v = nxt.value.id
                     ok = same_expr(st.value.elts[0], "len(self.lines)") and same_expr(st.value.elts[1], f"len(self.lines) + len({v})")
-    ctx.need(n == 1, "entry range recorded by FastaFile.__setitem__ for a new header")
-    ctx.ob(f"{R}.appended-entry-range", FASTA, "FastaFile.__setitem__", "self._entries[header] = (len(self.lines), len(self.lines) + len(new_lines)); self.lines += new_lines", ok,
+    # the ranges of the entries are line numbers: whatever changes the number of lines in front of an entry must index the file anew
+    # (`self._find_entries()`); the only range written by hand is the one of an entry appended at the end
+    ctx.need(n >= 1, "entry range recorded by FastaFile.__setitem__ for a new header")
+    ctx.ob(f"{R}.appended-entry-range", FASTA, "FastaFile.__setitem__", "self._entries[header] = (len(self.lines), len(self.lines) + len(new_lines)); self.lines += new_lines", ok and n == 1,
            "the recorded range must cover exactly the lines appended next (computed from that very list, not re-derived from the sequence "
            "length: a row whose length is a multiple of the line width has no partial last line)", f.lineno)
 
@@ -197,10 +199,53 @@ def rna_spelling_rules(ctx):
     ctx.floor("R2.rna-spelling-nucleotides-only", n, 1)
 
 
+_NUCLEOTIDE_TEXT_REFERENCE = '''
+def _process_nucleotide_sequence(x):
+    return x.upper().replace("U", "T").replace("X", "N")
+'''
+
+
+def nucleotide_text_rule(ctx, rule):
+    """the text of a row that is read as a nucleotide sequence: upper case FIRST, then U -> T and X -> N (a lower-case `u` that is
+    not upper-cased before the replacement stays a `U`, and the row is parsed as a protein)"""
+    from ..equiv import same_function
+    f = ctx.src(FCONV).func("_process_nucleotide_sequence")
+    ok, shown = same_function(f, _NUCLEOTIDE_TEXT_REFERENCE)
+    ctx.ob(rule, FCONV, "_process_nucleotide_sequence", "x.upper().replace('U', 'T').replace('X', 'N')", ok,
+           "lower-case RNA rows (`acgu`) must become DNA text before the sequence type is chosen; the function computes " + shown, f.lineno)
+
+
+TEXTFILE = "file.py"
+
+
+def text_layer_rules(ctx, prefix="R1"):
+    """the iterating reader and writer that every sequence format (and the parsers of tool output in biotite.application) go
+    through: one record per header - also for the last one, also when its sequence is empty; one line break per line written"""
+    from ..exprnorm import same_expr as _same
+    fr = ctx.src(FASTA).func("FastaFile.read_iter")
+    loops = [st for st in fr.body if isinstance(st, ast.For)]
+    ctx.need(len(loops) == 1, "the line loop of FastaFile.read_iter")
+    k_ = fr.body.index(loops[0])
+    finals = [st for st in fr.body[k_ + 1:] if any(isinstance(y, ast.Yield) for y in ast.walk(st))]
+    inner = [st for st in ast.walk(loops[0]) if isinstance(st, ast.If) and any(isinstance(y, ast.Expr) and isinstance(y.value, ast.Yield) for y in st.body)]
+    ctx.ob(f"{prefix}.every-header-is-a-record", FASTA, "FastaFile.read_iter", "yield header, .. if header is not None (inside and after the loop)",
+           len(finals) == 1 and isinstance(finals[0], ast.If) and _same(finals[0].test, "header is not None") and not finals[0].orelse
+           and len(inner) == 1 and _same(inner[0].test, "header is not None"),
+           "a record exists as soon as its header line was read: an entry whose sequence is empty (the last one included) is a record", fr.lineno)
+    wi = ctx.src(TEXTFILE).func("TextFile.write_iter")
+    writes = [c for c in ast.walk(wi) if isinstance(c, ast.Call) and isinstance(c.func, ast.Attribute) and c.func.attr in ("write", "writelines")]
+    ctx.ob(f"{prefix}.one-line-break-per-line", TEXTFILE, "TextFile.write_iter", f"{len(writes)} write call(s): <file>.write(line + '\\n')",
+           len(writes) >= 1 and all(c.func.attr == "write" and len(c.args) == 1 and _same(c.args[0], "line + '\\n'") for c in writes),
+           "the lines handed in carry no line breaks: writing them as they are puts the whole file on one line (path and file object alike)",
+           wi.lineno)
+
+
 def run(ctx):
     rna_spelling_rules(ctx)
+    nucleotide_text_rule(ctx, "R2.nucleotide-text-normalised")
     number_and_wrap_rules(ctx)
     fasta_append_rules(ctx, "R1")
+    text_layer_rules(ctx, "R1")
     # ---------------- R1 coupling -----------------------------------------
     n_w = 0
     for cls, (rel, fields, reindexer) in COUPLED.items():
@@ -747,6 +792,7 @@ def run(ctx):
         shift = None
         loop_from = None
         applied = None
+        net = None
         for st in stmts(f):
             if isinstance(st, ast.Assign) and isinstance(st.targets[0], ast.Tuple) \
                     and isinstance(st.value, ast.Subscript) and dotted(st.value.value) == "self._field_pos" \
@@ -788,6 +834,18 @@ def run(ctx):
                             s1 = a1.get("shift", 0)
                             s2 = a2.get("shift", 0)
                             applied = s1 if s1 == s2 else None
+                            if shift is None and "shift" not in a1 and "shift" not in a2:
+                                # the amount is written into the update itself (no local of its own): what is added to both positions
+                                n1 = {k_: v_ for k_, v_ in a1.items() if k_ != olds[0]}
+                                n2 = {k_: v_ for k_, v_ in a2.items() if k_ != olds[1]}
+                                if n1 == n2 and n1:
+                                    net = n1
+        if shift is None and net is not None:
+            # normal form: the amount with the sign the reference applies it with (moved up = subtracted in __delitem__)
+            if meth == "__delitem__":
+                shift, applied = {k_: -v_ for k_, v_ in net.items()}, -1
+            else:
+                shift, applied = net, 1
         return f, bounds, spliced, shift, loop_from, applied
 
     f, bounds, spliced, shift, loop_from, applied = analyse("__setitem__")
